@@ -98,7 +98,7 @@ def match_known(pid, item, known):
     finding's matcher (exact input, or a named trigger evaluated by the property
     module) accepts it."""
     for k in known:
-        if k.get("property") != pid or k.get("status") != "known":
+        if pid not in k.get("properties", [k.get("property")]) or k.get("status") != "known":
             continue
         if "inputs" in k and item.get("input") in k["inputs"]:
             return k
